@@ -34,6 +34,7 @@ import (
 	"fmt"
 	"io"
 	"math/big"
+	"net"
 	"strings"
 	"sync"
 	"testing"
@@ -41,10 +42,109 @@ import (
 	"time"
 
 	dtlsstate "github.com/pion/dtls/v3/internal/state"
+	"github.com/pion/dtls/v3/pkg/crypto/prf"
 	"github.com/pion/dtls/v3/pkg/protocol"
 	"github.com/pion/dtls/v3/pkg/protocol/handshake"
 	"github.com/pion/logging"
 )
+
+// ---------------------------------------------------------------- server-name forms, empty PSK, PSK-only client on DTLS 1.3
+
+var c03GoodPSK = []byte{0xAB, 0xC1, 0x23} //nolint:gochecknoglobals
+
+func c03ExtConfigs(s c03Scn, cp, svp **dtlsConfig, _ *c03Obs) {
+	c, sv := *cp, *svp
+	kc := c03GetKeyCreds()
+	switch s.Rogue {
+	case "server_name":
+		// the (rogue) server holds a genuine certificate under the trusted CA - for SCert; the client wants SName
+		c.RootCAs = kc.Pool
+		c.ServerName = s.SName
+		if s.SName == "-" {
+			c.ServerName = ""
+		}
+		c.Certificates = nil
+		sv.Certificates = []tls.Certificate{kc.Named[s.SCert]}
+	case "empty_psk":
+		if s.Honest == "server" {
+			// honest server: key lookup by identity, an unknown identity yields an empty key and no error
+			sv.psk = func(id []byte) ([]byte, error) {
+				if string(id) == "verif-client" {
+					return c03GoodPSK, nil
+				}
+
+				return nil, nil
+			}
+			// rogue client: unknown identity, knows no key; derives the pre-master secret of the EMPTY key
+			c.PSKIdentityHint = []byte("nobody")
+			c.psk = func([]byte) ([]byte, error) { return []byte{0x01}, nil }
+			ecdhe := s.Suite == "ecdhepsk"
+			c.LoggerFactory = &c03HookLogger{onTrace: func(m string) {
+				if c03AttackerConn == nil || !strings.Contains(m, "Flight 3 -> Flight 5") {
+					return
+				}
+				st, err := dtlsstate.As12(c03AttackerConn.state)
+				if err != nil {
+					return
+				}
+				if ske := st.RemoteServerKeyExchange(); ecdhe && ske != nil && st.LocalKeypair != nil {
+					if pms, perr := prf.EcdhePSKPreMasterSecret(nil, ske.PublicKey, st.LocalKeypair.PrivateKey,
+						st.LocalKeypair.Curve); perr == nil {
+						st.PreMasterSecret = pms
+					}
+				} else {
+					st.PreMasterSecret = prf.PSKPreMasterSecret(nil)
+				}
+			}}
+		} else {
+			// honest client: key lookup by the server's identity hint
+			c.psk = func(hint []byte) ([]byte, error) {
+				if string(hint) == "verif-server" {
+					return c03GoodPSK, nil
+				}
+
+				return nil, nil
+			}
+			// rogue server: unknown hint, uses the empty key (its own stack refuses that on the repaired tree,
+			// but the honest client decides first, on the ServerKeyExchange)
+			sv.PSKIdentityHint = []byte("nobody")
+			sv.psk = func([]byte) ([]byte, error) { return nil, nil }
+		}
+	case "psk_only_13":
+		// client: WithPSK only - no RootCAs, no ServerName, no certificates - but DTLS 1.3 allowed
+		c2 := vBaseConfig()
+		c2.psk = func([]byte) ([]byte, error) { return c03GoodPSK, nil }
+		c2.PSKIdentityHint = []byte("verif-client")
+		c2.MaxVersion = protocol.Version1_3
+		// server: DTLS 1.3, knows no PSK, holds some certificate the system roots accept
+		s2 := vBaseConfig()
+		s2.Certificates = []tls.Certificate{vGetCreds().WrongName}
+		s2.MinVersion, s2.MaxVersion = protocol.Version1_3, protocol.Version1_3
+		*cp, *svp = c2, s2
+	}
+}
+
+func c03ExtScenarios() []c03Scn {
+	var out []c03Scn
+	for _, ver := range []int{12, 13} {
+		for _, name := range []string{"server.verif", "192.0.2.10", "2001:db8::10", "-"} {
+			for _, crt := range []string{"dns", "dnsother", "ip4", "ip4other", "ip6", "ip6other"} {
+				for _, skip := range []bool{false, true} {
+					out = append(out, c03Scn{Ver: ver, Suite: "cert", Honest: "client", Rogue: "server_name",
+						Skip: skip, SName: name, SCert: crt})
+				}
+			}
+		}
+	}
+	for _, suite := range []string{"psk", "ecdhepsk"} {
+		for _, hs := range []string{"client", "server"} {
+			out = append(out, c03Scn{Ver: 12, Suite: suite, Honest: hs, Rogue: "empty_psk"})
+		}
+	}
+	out = append(out, c03Scn{Ver: 13, Suite: "psk", Honest: "client", Rogue: "psk_only_13"})
+
+	return out
+}
 
 // ---------------------------------------------------------------- credentials of every key type
 
@@ -52,6 +152,7 @@ type c03KeyCreds struct {
 	Pool   *x509.CertPool
 	Server map[string]tls.Certificate // key type -> "server.verif" chain + key under the CA
 	Client map[string]tls.Certificate // key type -> "client.verif"
+	Named  map[string]tls.Certificate // what the certificate is valid for -> Ed25519 server certificate under the CA
 }
 
 var (
@@ -114,6 +215,39 @@ func c03GetKeyCreds() *c03KeyCreds {
 					out.Client[kt] = crt
 				}
 			}
+		}
+		out.Named = map[string]tls.Certificate{}
+		for _, nm := range []string{"dns", "dnsother", "ip4", "ip4other", "ip6", "ip6other"} {
+			_, priv, kerr := ed25519.GenerateKey(rand.Reader)
+			if kerr != nil {
+				panic(kerr)
+			}
+			tpl := &x509.Certificate{
+				SerialNumber: big.NewInt(serial), Subject: pkix.Name{CommonName: "name-" + nm},
+				NotBefore: notBefore, NotAfter: notAfter, KeyUsage: x509.KeyUsageDigitalSignature,
+				ExtKeyUsage: []x509.ExtKeyUsage{x509.ExtKeyUsageServerAuth, x509.ExtKeyUsageClientAuth},
+			}
+			serial++
+			switch nm {
+			case "dns":
+				tpl.DNSNames = []string{"server.verif"}
+			case "dnsother":
+				tpl.DNSNames = []string{"other.example"}
+			case "ip4":
+				tpl.IPAddresses = []net.IP{net.ParseIP("192.0.2.10")}
+			case "ip4other":
+				tpl.IPAddresses = []net.IP{net.ParseIP("192.0.2.99")}
+			case "ip6":
+				tpl.IPAddresses = []net.IP{net.ParseIP("2001:db8::10")}
+			default:
+				tpl.IPAddresses = []net.IP{net.ParseIP("2001:db8::99")}
+			}
+			der, cerr := x509.CreateCertificate(rand.Reader, tpl, ca, priv.Public(), caKey)
+			if cerr != nil {
+				panic(cerr)
+			}
+			leaf, _ := x509.ParseCertificate(der)
+			out.Named[nm] = tls.Certificate{Certificate: [][]byte{der}, PrivateKey: priv, Leaf: leaf}
 		}
 		c03KeyCredsVal = out
 	})
